@@ -58,16 +58,17 @@ def run(ctx: Ctx, rep: Report) -> None:
     enc = pdu.methods.get("encode_raw")
     if enc is None:
         raise AnalysisError("PDU.encode_raw vanished")
-    rets = [n for n in own_nodes(enc.node) if isinstance(n, ast.Return) and n.value is not None]
-    items = joined_items(ctx, enc, rets[0].value, pdu) if len(rets) == 1 else None
-    want = [("Integer", "self.value.request_id"), ("Integer", "self.value.error_status"), ("Integer", "self.value.error_index")]
-    ok = items is not None and len(items) == 4 and items[:3] == want and items[3][0] == "Sequence"
-    rep.check(ok, "C05-R1", enc.site(), "PDU payload = Integer(request_id) Integer(error_status) Integer(error_index) Sequence(bindings), in this order", fmt(items), key=f"{enc.key}|body-shape")
-    bind_ok = False
-    if items is not None and len(items) == 4:
-        txt = items[3][1]
-        bind_ok = txt.startswith("[SequenceOf<-Sequence[") and "vb.oid, vb.value] for vb in self.value.varbinds" in txt.replace(f"{'vb'}", "vb") or ("Sequence[" in txt and ".oid, " in txt and ".value] for " in txt and "in self.value.varbinds" in txt)
-    rep.check(bind_ok, "C05-R1", enc.site(), "bindings = SEQUENCE OF SEQUENCE[oid, value] over self.value.varbinds in list order", items[3][1] if items and len(items) == 4 else "", key=f"{enc.key}|bindings-shape")
+    if not pdu_body_by_evaluation(ctx, rep, enc, pdu, content):
+        rets = [n for n in own_nodes(enc.node) if isinstance(n, ast.Return) and n.value is not None]
+        items = joined_items(ctx, enc, rets[0].value, pdu) if len(rets) == 1 else None
+        want = [("Integer", "self.value.request_id"), ("Integer", "self.value.error_status"), ("Integer", "self.value.error_index")]
+        ok = items is not None and len(items) == 4 and items[:3] == want and items[3][0] == "Sequence"
+        rep.check(ok, "C05-R1", enc.site(), "PDU payload = Integer(request_id) Integer(error_status) Integer(error_index) Sequence(bindings), in this order", fmt(items), key=f"{enc.key}|body-shape")
+        bind_ok = False
+        if items is not None and len(items) == 4:
+            txt = items[3][1]
+            bind_ok = txt.startswith("[SequenceOf<-Sequence[") and "vb.oid, vb.value] for vb in self.value.varbinds" in txt.replace(f"{'vb'}", "vb") or ("Sequence[" in txt and ".oid, " in txt and ".value] for " in txt and "in self.value.varbinds" in txt)
+        rep.check(bind_ok, "C05-R1", enc.site(), "bindings = SEQUENCE OF SEQUENCE[oid, value] over self.value.varbinds in list order", items[3][1] if items and len(items) == 4 else "", key=f"{enc.key}|bindings-shape")
     defaults = {}
     for name in ("error_status", "error_index"):
         try:
@@ -102,6 +103,8 @@ def run(ctx: Ctx, rep: Report) -> None:
     bbytes = bulk.methods.get("__bytes__")
     if bbytes is None:
         rep.undecided("C05-R2", f"{bulk.module.path} (BulkGetRequest)", "GETBULK framing found", "no __bytes__")
+    elif bulk_by_evaluation(ctx, rep, bulk, bbytes):
+        pass
     else:
         defs = ctx.defs(bbytes)
         rets = [n for n in own_nodes(bbytes.node) if isinstance(n, ast.Return) and n.value is not None]
@@ -294,3 +297,96 @@ def run(ctx: Ctx, rep: Report) -> None:
     rep.adopt_rules(ctx.sub_run("c11", rep), "C05-R9", ["C11-R1", "C11-R2", "C11-R4"])
     sub = ctx.sub_run("c18", rep)
     rep.adopt_rules(sub, "C05-R7", ["C18-R4"])
+
+
+def pdu_body_by_evaluation(ctx: Ctx, rep: Report, enc: FuncInfo, pdu: ClassInfo, content: ClassInfo) -> bool:
+    """
+    PDU.encode_raw evaluated (engine/minieval.py) for a PDU with symbolic content: the octets it returns must be the
+    concatenation of the encodings of Integer(request-id), Integer(error-status), Integer(error-index) and
+    Sequence([Sequence([oid, value]) ...]) over the bindings in list order.  False = not evaluable (fall back).
+    """
+    from ..engine.minieval import Instance, MiniEval, Raised, Sym, SymBytes, Unevaluable
+
+    vb_cls = ctx.u.cls("puresnmp.varbind:VarBind")
+    verdicts = []
+    for rid, status, index, count in ((7, 0, 0, 0), (4711, 0, 0, 1), (2**31 - 1, 5, 2, 3)):
+        binds = []
+        for i in range(count):
+            vb = Instance(vb_cls, [], {})
+            vb.attrs.update(oid=Sym(f"oid{i + 1}"), value=Sym(f"value{i + 1}"))
+            vb.attrs["__items__"] = [vb.attrs["oid"], vb.attrs["value"]]
+            binds.append(vb)
+        cont = Instance(content, [], {})
+        cont.attrs.update(request_id=rid, varbinds=binds, error_status=status, error_index=index)
+        me = Instance(pdu, [], {})
+        me.attrs.update(value=cont, pyvalue=cont)
+        try:
+            got = MiniEval(ctx).call_function(enc, [me])
+        except Unevaluable as exc:
+            rep.info(f"PDU.encode_raw is not followed by the evaluator ({exc}); reading its structure instead")
+            return False
+        except Raised as exc:
+            verdicts.append((False, f"raises {exc.value!r}", (rid, status, index, count)))
+            continue
+        ok = isinstance(got, SymBytes) and len(got.parts) == 4 and all(isinstance(p, Instance) for p in got.parts)
+        if ok:
+            a, b, c, d = got.parts
+            ok = [p.cls.name for p in got.parts] == ["Integer", "Integer", "Integer", "Sequence"] and [p.args[:1] for p in (a, b, c)] == [[rid], [status], [index]]
+            inner = d.args[0] if d.args else None
+            ok = ok and isinstance(inner, list) and len(inner) == count
+            if ok:
+                for item, vb in zip(inner, binds):
+                    ok = ok and isinstance(item, Instance) and item.cls.name == "Sequence" and item.args and list(item.args[0]) == [vb.attrs["oid"], vb.attrs["value"]]
+        verdicts.append((ok, repr(got)[:300], (rid, status, index, count)))
+    for ok, detail, (rid, status, index, count) in verdicts:
+        rep.check(ok, "C05-R1", enc.site(), f"PDU body for request-id {rid}, status {status}, index {index}, {count} binding(s) = Integer(request-id) Integer(error-status) Integer(error-index) Sequence(Sequence[oid, value] per binding, in list order)", detail, key=f"{enc.key}|body-shape")
+    return True
+
+
+def bulk_by_evaluation(ctx: Ctx, rep: Report, bulk: ClassInfo, bbytes: FuncInfo) -> bool:
+    """
+    BulkGetRequest(request_id, non_repeaters, max_repeaters, *oids) is constructed and serialised by the evaluator:
+    the octets are TypeInfo(CONTEXT, CONSTRUCTED, TAG) + encode_length(len(payload)) + payload with payload =
+    Integer(request-id) Integer(non-repeaters) Integer(max-repetitions) Sequence(Sequence[oid, Null] per OID in order).
+    """
+    from ..engine.minieval import Instance, MiniEval, Raised, Sym, SymBytes, Unevaluable
+
+    init = bulk.methods.get("__init__")
+    if init is None:
+        return False
+    verdicts = []
+    for rid, nr, mr, count in ((7, 0, 10, 1), (4711, 2, 5, 3), (1, 0, 0, 0)):
+        oids = [Sym(f"oid{i + 1}") for i in range(count)]
+        me = Instance(bulk, [], {})
+        length_tokens = []
+
+        def encode_length_model(args, kwargs):
+            length_tokens.append(args[0] if args else None)
+            return SymBytes([("length-octets", args[0] if args else None)])
+
+        ev = MiniEval(ctx, externals={"x690.util:encode_length": encode_length_model})
+        try:
+            ev.call_function(init, [me, rid, nr, mr] + oids)
+            got = ev.call_function(bbytes, [me])
+        except Unevaluable as exc:
+            rep.info(f"BulkGetRequest is not followed by the evaluator ({exc}); reading its structure instead")
+            return False
+        except Raised as exc:
+            verdicts.append((False, f"raises {exc.value!r}", (rid, nr, mr, count)))
+            continue
+        ok = isinstance(got, SymBytes) and len(got.parts) == 6
+        if ok:
+            tinfo, length, a, b, c, d = got.parts
+            ok = isinstance(tinfo, Instance) and tinfo.cls.name == "TypeInfo" and [str(getattr(x, "name", x)).upper() for x in tinfo.args[:2]] == ["CONTEXT", "CONSTRUCTED"] and tinfo.args[2:3] == [rfc.PDU_TAGS["BulkGetRequest"]]
+            ok = ok and isinstance(length, tuple) and length[0] == "length-octets" and isinstance(length[1], Sym)
+            ok = ok and all(isinstance(p, Instance) for p in (a, b, c, d)) and [p.cls.name for p in (a, b, c, d)] == ["Integer", "Integer", "Integer", "Sequence"] and [p.args[:1] for p in (a, b, c)] == [[rid], [nr], [mr]]
+            inner = d.args[0] if isinstance(d, Instance) and d.args else None
+            ok = ok and isinstance(inner, list) and len(inner) == count
+            if ok:
+                for item, oid in zip(inner, oids):
+                    pair = list(item.args[0]) if isinstance(item, Instance) and item.cls.name == "Sequence" and item.args else None
+                    ok = ok and pair is not None and len(pair) == 2 and pair[0] == oid and isinstance(pair[1], Instance) and pair[1].cls.name == "Null"
+        verdicts.append((ok, repr(got)[:320], (rid, nr, mr, count)))
+    for ok, detail, (rid, nr, mr, count) in verdicts:
+        rep.check(ok, "C05-R2", bbytes.site(), f"GETBULK(request-id {rid}, non-repeaters {nr}, max-repetitions {mr}, {count} OID(s)) = TypeInfo(CONTEXT, CONSTRUCTED, TAG) + length + Integer Integer Integer Sequence(Sequence[oid, NULL] per OID in order)", detail, key=f"{bbytes.key}|body-shape")
+    return True
